@@ -27,7 +27,9 @@ func (e *kvElection) heartbeatLoop(ctx context.Context) {
 		case <-ctx.Done():
 			return
 		case <-ticker.C:
-			if !e.IsLeader() {
+			// select picks at random when the term's context is done as well;
+			// IsLeader alone does not tell: the instance may lead a newer term.
+			if ctx.Err() != nil || !e.IsLeader() {
 				return
 			}
 
